@@ -106,3 +106,9 @@ Print Assumptions C20_std_only_under_std.
 Theorem C20_doc_files_present : forallb (fun e : string * bool => snd e) doc_files = true.
 Proof. exact Proofs.doc_files_present. Qed.
 Print Assumptions C20_doc_files_present.
+
+(** no `cfg!(..)` call in an expression of either crate outside the reviewed list: inside a compiled item the behaviour
+    does not depend on the feature set *)
+Theorem C20_no_unreviewed_cfg_macro : cfg_macros_reviewed cfg_macro_sites = true.
+Proof. exact Proofs.cfg_macros_all_reviewed. Qed.
+Print Assumptions C20_no_unreviewed_cfg_macro.
